@@ -5,8 +5,15 @@ CONSTANTS
   PeerKinds = {"data", "ping", "closeValid"}
   CallApis = {"AsyncNextFrame", "AsyncNextMessage", "AsyncWrite", "AsyncClose"}
   Partial = TRUE
+  MaxWriters = 1
+  ReadThens = {0}
+  WriteThens = {0}
+  Glue = FALSE
   BUG_SingleRecord = FALSE
+  BUG_WaitersLive = FALSE
+  BUG_CloseBypass = FALSE
   BUG_SecondClose = FALSE
+  Focus = {"C08", "C17"}
 INVARIANTS NotBad TypeOK NoOverlap
 VIEW View
 CHECK_DEADLOCK FALSE
